@@ -248,9 +248,10 @@ def run(ctx):
                 for o in acc:
                     after = o.store.get((thobj, F("thread", "cpu")))
                     if after == PTR("CPU0"):
-                        # only legal when nothing moved at all (same CPU requested)
-                        if any(ev[0] == "call" and ev[1] in recounts for ev in o.events):
-                            probs.append("CPU lists changed but the thread's cpu pointer did not")
+                        # the event names another CPU (NEWCPU) than the one the thread is on (CPU0): accepting it
+                        # without moving the thread leaves the CPU rows on the old CPU
+                        probs.append("the event is accepted but the thread stays bound to its old CPU although another "
+                                     "CPU was requested")
                         continue
                     if after != PTR("NEWCPU"):
                         probs.append("thread ends bound to %s" % (after,))
